@@ -25,8 +25,8 @@ PROPS = {
                         "a result carrying both an error and a status is contradictory; either reading is accepted",
                         "jitter uses the process-global math/rand; only the interval is asserted (the lifecycle runner seeds it per case for reproducibility)",
                         "a jitter the compiler accepts outside [0,1] (NaN) is outside the quantifier: classification is judged, the delay interval is not"],
-        "parts": [{"engine": "push", "test": "TestProp_C06_Table", "quick": 1600, "thorough": 160000},
-                  {"engine": "push", "test": "TestProp_C06_Lifecycle", "quick": 2400, "thorough": 200000},
+        "parts": [{"engine": "push", "test": "TestProp_C06_Table", "quick": 16000, "thorough": 160000, "shards": {"quick": 8, "thorough": 16}},
+                  {"engine": "push", "test": "TestProp_C06_Lifecycle", "quick": 24000, "thorough": 160000, "shards": {"quick": 16, "thorough": 16}},
                   {"engine": "push", "test": "TestProp_C06_Live", "thorough": 4000, "tiers": ["thorough"]}],
         "guards": ["path:per-item", "path:batch", "path:batch-fallback", "retry-then-delivered", "retry-then-dead", "requeue-cycle", "backend:sqlite",
                    "dead:max_retries", "dead:no_retry", "dead:policy_denied", "sweep"],
@@ -44,10 +44,13 @@ PROPS = {
                         "the check-then-connect DNS TOCTOU is outside the statement ('at the time of the check')",
                         "when addresses are needed and the scripted resolver fails or returns none, only 'no request and some error' is required (a DNS failure is a network error under C06)",
                         "rule spellings the statement does not define (IPv4-mapped IP/CIDR rules, IPv6 prefixes covering ::ffff:0:0/96 against IPv4 addresses, hosts with two trailing dots) are three-valued: never judged",
-                        "unparsable URLs and URLs without a host: only 'no request and some error' is required"],
-        "parts": [{"engine": "push", "test": "TestProp_C16_Policy", "quick": 40000, "thorough": 4000000},
-                  {"engine": "push", "test": "TestProp_C16_Deliver", "quick": 16000, "thorough": 1600000},
-                  {"engine": "push", "test": "TestProp_C16_FuzzShape", "quick": 8000, "thorough": 800000},
+                        "unparsable URLs and URLs without a host: only 'no request and some error' is required",
+                        "the scripted resolver answers 'no such host' for strings that are not DNS names (as net.Resolver does without asking anybody): a request whose host "
+                        "net/http normalised to empty ('http://::' is checked as host ':' and dialled as ':80' = the local machine) is judged only under dns_rebind_protection, "
+                        "where the production resolver can never let it through"],
+        "parts": [{"engine": "push", "test": "TestProp_C16_Policy", "quick": 480000, "thorough": 2400000, "shards": {"quick": 8, "thorough": 16}},
+                  {"engine": "push", "test": "TestProp_C16_Deliver", "quick": 240000, "thorough": 1200000, "shards": {"quick": 8, "thorough": 16}},
+                  {"engine": "push", "test": "TestProp_C16_FuzzShape", "quick": 120000, "thorough": 600000, "shards": {"quick": 4, "thorough": 16}},
                   {"engine": "push", "test": "Fuzz_C16", "quick": 1, "thorough": 1, "native": True, "shards": {"quick": 1, "thorough": 1}}],
         "guards": ["allowed-delivery", "allowed", "denied", "redirect-followed", "nt:denied-at-later-hop", "nt:address-decides", "nt:deny-allow-overlap"],
     },
@@ -65,8 +68,8 @@ PROPS = {
                         "only the first hop is specified (signatures on redirected hops are not judged)",
                         "'ties by id': the statement gives no direction; the smallest and the largest id of the tied group are both accepted",
                         "'signing time' is the instant Now() returned; when the instant truncated to the second (the value in the header) selects differently, both are accepted"],
-        "parts": [{"engine": "push", "test": "TestProp_C17_Sign", "quick": 24000, "thorough": 2400000},
-                  {"engine": "push", "test": "TestProp_C17_Select", "quick": 30000, "thorough": 3000000}],
+        "parts": [{"engine": "push", "test": "TestProp_C17_Sign", "quick": 320000, "thorough": 1600000, "shards": {"quick": 8, "thorough": 16}},
+                  {"engine": "push", "test": "TestProp_C17_Select", "quick": 320000, "thorough": 1600000, "shards": {"quick": 8, "thorough": 16}}],
         "guards": ["signed-ok", "no-valid-version", "secret-unloadable", "nt:>=2-valid", "at-boundary-exactly", "tie-on-valid_from", "path-with-escapes"],
     },
 }
